@@ -328,23 +328,33 @@ def _derivation(fn, target, source):
 
 
 def init_emitted(chk, facts, rule):
-    """the synthesised constructor is left out only when it would be empty: `init` has no early `return`, and yields None exactly
-    in the else-branch of `if !statements.is_empty()`. (Python's inherited constructor runs the first parent's `__init__` only, and
-    emitted constructors never call super(): eliding a constructor that "only forwards self" changes what a class with two parents does.)"""
+    """the synthesised constructor is left out only when it would be empty: on every syntactic path of `init` that yields None the
+    list of constructor statements is known to be empty. (Python's inherited constructor runs the first parent's `__init__` only, and
+    emitted constructors never call super(): eliding a constructor that "only forwards self" changes what a class with two parents
+    does.) Decided on the enumerated paths, so `Ok(if !s.is_empty() { Some(..) } else { None })` and
+    `if s.is_empty() { return Ok(None); } .. Ok(Some(..))` are the same thing."""
+    from .common import fn_paths, unwrap_ok
     syn = facts.syn
     try:
         f = syn.one_fn("init", mod="generate::convert::class")
         loc = facts.loc_of(f)
-        rets = [n for n in walk_no_closure(f["body"]) if n.get("k") == "return"]
-        ok = not rets
-        chk.ob(rule, "init:no-early-return", ok, "init has no early return" if ok else
-               f"init returns early (`{src(rets[0])[:70]}`): the constructor can be left out although parent constructors would have to be called", loc)
-        t = strip(tail_expr(f["body"]) or {})
-        arg = strip(t["args"][0]) if t.get("k") == "call" and src(t["f"]) == "Ok" and t["args"] else {}
-        ok = arg.get("k") == "if" and src(strip(arg["c"])).replace(" ", "") in ("!statements.is_empty()", "(!statements.is_empty())") and \
-            any(n.get("k") == "call" and src(n["f"]) == "Some" and n["args"] and strip(n["args"][0]).get("k") == "struct" and strip(n["args"][0])["p"] == "Core::FunDef"
-                for n in walk(arg["then"])) and src(strip(arg["else"])).replace(" ", "") in ("None", "{None}")
-        chk.ob(rule, "init:none-iff-empty", ok, "no constructor is emitted exactly when it would have no statements" if ok else
-               "init no longer yields None exactly when the list of constructor statements is empty", loc)
+        paths = fn_paths(f["body"])
+        n_none = n_some = 0
+        bad = None
+        for p in paths:
+            if p.result is None:
+                continue
+            r = unwrap_ok(p.result)
+            rs = src(strip(r)).replace(" ", "")
+            if rs in ("None", "{None}"):
+                n_none += 1
+                if p.holds("statements.is_empty()") is not True:
+                    bad = bad or p
+            elif rs.startswith("Some("):
+                n_some += 1
+        ok = bad is None and n_none >= 1 and n_some >= 1
+        chk.ob(rule, "init:none-only-when-empty", ok, f"no constructor is emitted only on paths where the statement list is empty ({n_none} such path(s), {n_some} emitting)" if ok else
+               (f"init yields None on a path where the constructor statements are not known to be empty (conditions: {[c for c, pol in bad.conds if pol][-3:]}): "
+                "the constructor is left out although parent constructors would have to be called" if bad else f"init: {n_none} None paths, {n_some} Some paths"), loc)
     except AnchorError as e:
         chk.anchor_fail(rule, e)
